@@ -152,6 +152,7 @@ pub fn check_rcase(c: &RCase, env: &Env) -> Result<(RNotes, Built), Failure> {
     let b = c.img.build(c.cfg.e, c.cfg.r.word().bits(), c.cut_words);
     const FREE: [Code; 2] = [Code::Gamma, Code::Zeta(3)];
     let s = RStream { cfg: c.cfg, model: &b.model, starts: &b.starts, tables: &env.tables, free_codes: if c.free { &FREE } else { &[] } };
+    let _allow = crate::adapters::FuseAllowance::for_bits(crate::adapters::rops_bits(&c.ops));
     let n = run_reader(&s, &c.ops)?;
     Ok((n, b))
 }
